@@ -229,6 +229,38 @@ def collision_jobs():
                      pre=[dict(id='c12-pp-pre', req=pre_req.SerializeToString())],
                      probe_args=dict(package=names.import_package(P), proto_package=P, cells=cells), _position='collision',
                      _words=['common'], _cells=cells))
+    # an API file with the base name of a dependency file it imports (status.proto <- google/rpc/status.proto)
+    st = file('acme/kw/v1/status.proto', P, messages=[
+        message('ShelfStatus', [field('name', 1, 'string'), field('last_error', 2, '.google.rpc.Status'),
+                                field('history', 3, '.google.rpc.Status', repeated=True)])],
+        services=[service('Kw', [method('EchoStatus', Q('ShelfStatus'), Q('ShelfStatus'), http=('post', '/v1/status', '*'))])])
+    mods = ['google.rpc.status_pb2']
+    st.dependency.extend(desc.std_dep_names(mods))
+    req = request([st], 'transport=grpc+rest,autogen-snippets=false', extra_dep_modules=mods)
+    desc.gate(req)
+    cells = [dict(id='collision|api-file-named-like-dependency-file', position='collision', word='status', rpc='EchoStatus', py='echo_status',
+                  req=Q('ShelfStatus'), resp=Q('ShelfStatus'))]
+    jobs.append(dict(id='collision-dependency-basename', req=req.SerializeToString(), probe='mc.probes.reserved',
+                     probe_args=dict(package=names.import_package(P), proto_package=P, cells=cells), _position='collision',
+                     _words=['status'], _cells=cells))
+    # a clash that exists at service level only: the one RPC's request comes from the API's own book.proto, its response from the
+    # same-named file of a proto-plus dependency; no message refers to both
+    pd2 = 'acme.shared.v1'
+    dep_book = file('acme/shared/v1/book.proto', pd2, messages=[message('Book', [field('title', 1, 'string'), field('pages', 2, 'int32')])])
+    dep_book.dependency.extend(std)
+    pre2 = request([dep_book], 'transport=grpc,autogen-snippets=false')
+    desc.gate(pre2)
+    own = file('acme/kw/v1/book.proto', P, messages=[message('GetBookRequest', [field('name', 1, 'string')])],
+               services=[service('Kw', [method('GetBook', Q('GetBookRequest'), f'.{pd2}.Book', http=('post', '/v1/book:get', '*'))])])
+    own.dependency.extend(std + [dep_book.name])
+    req = request([own], f'transport=grpc+rest,autogen-snippets=false,proto-plus-deps={pd2}', extra_dep_files=[dep_book])
+    desc.gate(req)
+    cells = [dict(id='collision|service-level-only', position='collision', word='book', rpc='GetBook', py='get_book',
+                  req=Q('GetBookRequest'), resp=f'.{pd2}.Book')]
+    jobs.append(dict(id='collision-service-level', req=req.SerializeToString(), probe='mc.probes.reserved',
+                     pre=[dict(id='c12-pp-pre2', req=pre2.SerializeToString())],
+                     probe_args=dict(package=names.import_package(P), proto_package=P, cells=cells), _position='collision',
+                     _words=['book'], _cells=cells))
     return jobs
 
 
